@@ -8,7 +8,10 @@ Results: /tmp/par/results_<seed>.json; lanes are removed at the end."""
 import json, os, re, shutil, subprocess, sys, threading, queue
 
 seed, lanes = sys.argv[1], int(sys.argv[2])
-sel = sys.argv[3:]
+write = '--write' in sys.argv  # record the results in the meta.json files (canonical seed only) like tools/seeded_regress.py does
+sel = [a for a in sys.argv[3:] if not a.startswith('--')]
+head = subprocess.run(['git', '-C', '/repo', 'rev-parse', '--short', 'HEAD'], stdout=subprocess.PIPE).stdout.decode().strip()
+vhead = subprocess.run(['git', '-C', '/verif', 'rev-parse', '--short', 'HEAD'], stdout=subprocess.PIPE).stdout.decode().strip()
 root = '/verif/seeded'
 sys.path.insert(0, '/verif/tools')
 src = open('/verif/tools/seeded_regress.py').read()
@@ -33,6 +36,7 @@ def mklane(k):
     return base
 
 
+how = 'tools/par_regress.py: in a scratch git worktree of /repo at HEAD: git apply patch.diff; ./check <Cxx> --tier quick (seed %s) from a copy of /verif/harness built against that worktree; git checkout -- .' % seed
 jobs = queue.Queue()
 for mid in sorted(os.listdir(root)):
     d = os.path.join(root, mid)
@@ -55,14 +59,22 @@ def worker(k):
         if rc != 0:
             with lock:
                 results[mid] = {'status': 'does-not-apply'}
+                if write:
+                    meta['checks_run_against_it'] = {'how': how, 'repo_head': head, 'verif_head': vhead, 'status': 'patch-does-not-apply-to-current-HEAD', 'results': {}}
+                    meta['detected_by_own_property_check'] = False
+                    json.dump(meta, open('%s/%s/meta.json' % (root, mid), 'w'), indent=1)
             continue
         sh('git apply %s/%s/patch.diff' % (root, mid), cwd=base + '/repo')
         det = {}
         for p in props:
             rc, out = sh('./check %s --tier quick' % p, cwd=base + '/verif', e=e)
-            det[p] = {'exit': rc, 'signatures': sorted(set(re.findall(r'^violation: property=\S+ signature=(\S+)', out, re.M)))[:4]}
+            det[p] = {'exit': rc, 'signatures': sorted(set(re.findall(r'^violation: property=\S+ signature=(\S+)', out, re.M))), 'inconclusive': bool(re.search(r'^INCONCLUSIVE', out, re.M))}
         sh('git checkout -- . && git clean -fdq', cwd=base + '/repo')
         with lock:
+            if write:
+                meta['checks_run_against_it'] = {'how': how, 'repo_head': head, 'verif_head': vhead, 'status': 'ran', 'results': det}
+                meta['detected_by_own_property_check'] = det.get(prop, {}).get('exit') == 1
+                json.dump(meta, open('%s/%s/meta.json' % (root, mid), 'w'), indent=1)
             results[mid] = {'status': 'ran', 'results': det}
             print(mid, {p: (v['exit'], v['signatures'][:2]) for p, v in det.items()}, flush=True)
     sh('git -C /repo worktree remove --force %s/repo' % base)
